@@ -117,6 +117,9 @@ def run(case):
     nt_inst = sweep.node_twin(inst)
     okey = "cover_type" if cover else "flow_attr_origin"
     cfgs.append(cfg("node", {okey: "node"}, inst_over=nt_inst, origin="node"))
+    # a node without arcs (source and sink at once): its single-node route counts like any other
+    iso_inst, _q = sweep.with_isolated_node(nt_inst)
+    cfgs.append(cfg("node+isolated", dict({okey: "node"}, **({"k": k0 + 1} if is_k else {})), inst_over=iso_inst, origin="node"))
     if len(E) > 1:
         e0 = E[0]
         w_ign = sweep.width_of(inst, ignored=[e0])
